@@ -2342,7 +2342,8 @@ template< size_t L>
    // test if string is already full
    if (mLength == L)
       return *this;
-   return append( std::string( count, ch));
+   // surplus characters are ignored anyway, and count can be max(64bit)
+   return append( std::string( std::min( count, L - mLength), ch));
 } // FixedString< L>::append
 
 
@@ -2877,7 +2878,8 @@ template< size_t L>
       FixedString< L>::replace( size_t pos, size_t count, size_t count2,
          char ch) noexcept
 {
-   return replace( pos, count, std::string( count2, ch));
+   // surplus characters are ignored anyway, and count2 can be max(64bit)
+   return replace( pos, count, std::string( std::min( count2, L), ch));
 } // FixedString< L>::replace
 
 
